@@ -198,6 +198,24 @@ def _series(vals):  # noqa: ANN001, ANN202
     return pd.Series([float(v) for v in vals], dtype=float)
 
 
+def _names_arg(op: dict):  # noqa: ANN202
+    """The iterable of names a batch remover is handed: a list by default; on request a tuple,
+    a dict view, or a ONE-SHOT iterable (generator / iter / map) - all legal Iterable[str]."""
+    names = list(op["names"])
+    how = op.get("as", "list")
+    if how == "tuple":
+        return tuple(names)
+    if how == "generator":
+        return (n for n in names)
+    if how == "iter":
+        return iter(names)
+    if how == "map":
+        return map(str, names)
+    if how == "dict_keys":
+        return dict.fromkeys(names).keys()
+    return names
+
+
 def apply_op(m, op: dict, boxes: dict | None = None) -> None:  # noqa: ANN001, C901, PLR0912, PLR0915
     k = op["op"]
     if boxes is None:
@@ -209,7 +227,7 @@ def apply_op(m, op: dict, boxes: dict | None = None) -> None:  # noqa: ANN001, C
     elif k == "remove_parameter":
         m.remove_parameter(op["name"])
     elif k == "remove_parameters":
-        m.remove_parameters(list(op["names"]))
+        m.remove_parameters(_names_arg(op))
     elif k == "update_parameter":
         m.update_parameter(op["name"], _value(op["value"]))
     elif k == "update_parameters":
@@ -227,7 +245,7 @@ def apply_op(m, op: dict, boxes: dict | None = None) -> None:  # noqa: ANN001, C
     elif k == "remove_variable":
         m.remove_variable(op["name"], remove_stoichiometries=op.get("remove_stoichiometries", True))
     elif k == "remove_variables":
-        m.remove_variables(list(op["names"]))
+        m.remove_variables(_names_arg(op))
     elif k == "update_variable":
         m.update_variable(op["name"], _value(op["value"]))
     elif k == "update_variables":
@@ -601,7 +619,11 @@ class Gen:
             # de-duplicate while keeping order (a dict argument cannot repeat a key)
             tnames = list(dict.fromkeys(tnames))
             if kind.startswith("remove_"):
-                return {"op": kind, "names": tnames}
+                op = {"op": kind, "names": tnames}
+                if r.random() < 0.4 and kind == "remove_variables":
+                    # remove_variables is declared Iterable[str] (remove_parameters: list[str])
+                    op["as"] = r.choice(["tuple", "generator", "iter", "map", "dict_keys"])
+                return op
             if kind == "scale_parameters":
                 return {"op": kind, "items": [[t, r.choice([0.5, 2.0, 1.5])] for t in tnames]}
             return {"op": kind, "items": [[t, self.boxed(names)] for t in tnames]}
@@ -846,6 +868,19 @@ class Executor:
                     self.namespace_ok = False
                     self._viol("namespace", ["namespace", k, cause, what], f"after {k}: ids extra={extra} missing={missing}")
         if out_m[0] == "ok":
+            # the one thing no refinement against an equally-built model can see: an accepted
+            # edit that did nothing.  An accepted remove leaves none of its names behind under
+            # the kind it removes; an accepted add leaves all of its names in place.
+            tk = BATCH_OPS.get(k) or TARGET_KIND.get(k) or ADD_OPS.get(k)
+            touched = [op["name"]] if "name" in op else (list(op.get("names") or []) or [i[0] for i in op.get("items", [])])
+            if k.startswith("remove_") and tk:
+                left = [n for n in touched if tk in names.get(n, [])]
+                if left:
+                    self._viol("accepted_edit_did_nothing", ["accepted_edit_did_nothing", k, op.get("as", "list")], f"{k}({touched}) was accepted but {left} are still there")
+            elif k.startswith("add_") and k != "add_surrogate":
+                gone = [n for n in touched if n not in names]
+                if gone:
+                    self._viol("accepted_edit_did_nothing", ["accepted_edit_did_nothing", k, "list"], f"{k}({touched}) was accepted but {gone} are not in the model")
             self.last_mutator = k
             self.pending_mut = True
             self.scribbled = False
